@@ -439,7 +439,7 @@ class NAND(TypeReaderCryptoBase):
 
         self.ctr_index = None
         for idx, info in self.header.partition_table.items():
-            if info.base_file.startswith('ctr'):
+            if info.base_file and info.base_file.startswith('ctr'):
                 self.ctr_index = idx
                 logger.info('Found CTR partition at index %i', idx)
                 break
@@ -503,29 +503,31 @@ class NAND(TypeReaderCryptoBase):
                 'agb': self._crypto.create_ctr_io(Keyslot.AGB, self._subfile, self.counter),
             })
 
-            with self.open_raw_section(self.ctr_index) as f:
-                f.seek(0x1BE)
-                ctr_mbr = f.read(0x42)
-                try:
-                    self.ctr_partitions = parse_mbr_lazy(ctr_mbr)
-                    logger.info('Loaded CTR partitions')
-                except InvalidNANDError:
-                    logger.error('Could not load CTR partitions', exc_info=True)
+            if self.ctr_index is not None:
+                with self.open_raw_section(self.ctr_index) as f:
+                    f.seek(0x1BE)
+                    ctr_mbr = f.read(0x42)
+                    try:
+                        self.ctr_partitions = parse_mbr_lazy(ctr_mbr)
+                        logger.info('Loaded CTR partitions')
+                    except InvalidNANDError:
+                        logger.error('Could not load CTR partitions', exc_info=True)
 
         if self.counter_twl:
             self._base_files['twl'] = self._crypto.create_ctr_io(Keyslot.TWLNAND, self._subfile, self.counter_twl)
 
-            with self.open_raw_section(self.twl_index) as f:
-                f.seek(0x1BE)
-                twl_mbr = f.read(0x42)
-                try:
-                    self.twl_partitions = parse_mbr_lazy(twl_mbr)
-                    logger.info('Loaded TWL partitions')
-                except InvalidNANDError:
-                    # corrupted mbr, which can happen in the case of the NCSD header being from the wrong console
-                    # this is (or was) a somewhat common case, so we will copy the default mbr here
-                    logger.error('Could not load TWL partitions, using default information', exc_info=True)
-                    self.twl_partitions = DEFAULT_TWL_MBR_INFO.copy()
+            if self.twl_index is not None:
+                with self.open_raw_section(self.twl_index) as f:
+                    f.seek(0x1BE)
+                    twl_mbr = f.read(0x42)
+                    try:
+                        self.twl_partitions = parse_mbr_lazy(twl_mbr)
+                        logger.info('Loaded TWL partitions')
+                    except InvalidNANDError:
+                        # corrupted mbr, which can happen in the case of the NCSD header being from the wrong console
+                        # this is (or was) a somewhat common case, so we will copy the default mbr here
+                        logger.error('Could not load TWL partitions, using default information', exc_info=True)
+                        self.twl_partitions = DEFAULT_TWL_MBR_INFO.copy()
 
         # set up GM9 bonus volume
         try:
